@@ -231,7 +231,82 @@ def gen_document(odfdo, spec):
                 except Exception:
                     pass
         return doc
+    if spec["gen"] in ("rawtext", "rawsheet"):
+        return raw_document(odfdo, spec, rng)
     raise ValueError(spec)
+
+
+RAW_NS = ('xmlns:text="urn:oasis:names:tc:opendocument:xmlns:text:1.0" xmlns:table="urn:oasis:names:tc:opendocument:xmlns:table:1.0" '
+          'xmlns:office="urn:oasis:names:tc:opendocument:xmlns:office:1.0" xmlns:xlink="http://www.w3.org/1999/xlink" '
+          'xmlns:draw="urn:oasis:names:tc:opendocument:xmlns:drawing:1.0"')
+
+
+def raw_table(rng, name, tight):
+    """a table as other producers write them.  tight: exactly as wide as its content -- the last row and the last column are
+    in use while inner rows END WITH EXPLICIT EMPTY CELLS (or are ragged); otherwise padded: more columns declared than used,
+    repeated empty runs at the end of rows, empty rows below"""
+    def cell(v):
+        if v is None:
+            return "<table:table-cell/>"
+        return '<table:table-cell office:value-type="string"><text:p>%s</text:p></table:table-cell>' % v
+    h, w = rng.randint(2, 5), rng.randint(2, 5)
+    rows = []
+    for r in range(h):
+        vals = [rng.choice(["a", "b  c", "1", None]) for _ in range(w)]
+        cells = [cell(v) for v in vals]
+        last_row = r == h - 1
+        if not last_row:
+            k = rng.choice([1, 1, 2]) if tight else rng.choice([0, 1, 2])
+            k = min(k, w - 1)
+            cells = cells[:w - k] + ["<table:table-cell/>"] * k                                # explicit empty cells at the end
+            if not tight and rng.random() < .5:
+                cells.append('<table:table-cell table:number-columns-repeated="%d"/>' % rng.randint(2, 4))
+            if rng.random() < .2:
+                cells = cells[:rng.randint(1, len(cells))]                                     # ragged
+        elif tight:
+            cells[0] = cell("first")
+            cells[-1] = cell("end")
+        rep = ' table:number-rows-repeated="2"' if (rng.random() < .2 and not last_row) else ""
+        rows.append("<table:table-row%s>%s</table:table-row>" % (rep, "".join(cells)))
+    if not tight:
+        for _ in range(rng.randint(0, 2)):
+            rows.append('<table:table-row><table:table-cell table:number-columns-repeated="%d"/></table:table-row>' % w)
+    return '<table:table table:name="%s"><table:table-column table:number-columns-repeated="%d"/>%s</table:table>' % (
+        name, w if tight else w + 4, "".join(rows))
+
+
+def raw_document(odfdo, spec, rng):
+    """content that is NOT in the shape odfdo itself writes: reading must not normalise it"""
+    from odfdo import Document
+    text = spec["gen"] == "rawtext"
+    doc = Document("text" if text else "spreadsheet")
+    body = doc.body
+    body.clear()
+    node = body._Element__element
+    parts = []
+    if text:
+        raw_paragraphs = [
+            '<text:p>two  spaces and   three, a\ttab and a\nnewline in one text node</text:p>',
+            '<text:p>ends with a space <text:span>before a span</text:span> and  after  it </text:p>',
+            '<text:p> leading space, <text:span></text:span>empty span, <text:span> </text:span> blank span</text:p>',
+            '<text:p><text:span>Hello</text:span> <text:span>World</text:span>\n  <text:span>indented</text:span>\n</text:p>',
+            '<text:h text:outline-level="1">A  heading  with  runs <text:s/> and an s after a space</text:h>',
+            '<text:p>a<text:s text:c="1"/><text:s/> b<text:tab/>\t<text:line-break/>\n c</text:p>',
+            '<text:p/>', '<text:p>   </text:p>',
+            '<text:list><text:list-item><text:p>item  one </text:p></text:list-item><text:list-item><text:p> item\ttwo</text:p></text:list-item></text:list>',
+            '<text:section text:name="S  1"><text:p>in  a  section<text:a xlink:href="http://x/ y">a  link </text:a> tail  </text:p></text:section>',
+        ]
+        rng.shuffle(raw_paragraphs)
+        parts += raw_paragraphs[:rng.randint(6, len(raw_paragraphs))]
+        for k in range(rng.randint(2, 3)):
+            parts.insert(rng.randint(0, len(parts)), raw_table(rng, "Raw%d" % k, tight=(k == 0 or rng.random() < .5)))
+    else:
+        for k in range(rng.randint(2, 3)):
+            parts.append(raw_table(rng, "Raw%d" % k, tight=(k == 0 or rng.random() < .5)))
+    frag = etree.fromstring("<r %s>%s</r>" % (RAW_NS, "".join(parts)))
+    for child in list(frag):
+        node.append(child)
+    return doc
 
 
 _GEN_CACHE = {}
@@ -335,7 +410,7 @@ class Base:
 
 # ------------------------------------------------------------------------------------------------ entry points
 
-READ_NAME = re.compile(r"^(get_|is_|search|match$|to_|as_|show_|serialize$|pretty_serialize$|traverse|iter_|__str__$|__repr__$|"
+READ_NAME = re.compile(r"^(get_|is_|search|match$|replace$|to_|as_|show_|serialize$|pretty_serialize$|traverse|iter_|__str__$|__repr__$|"
                        r"minimized_width$|last_cell$|clone$|elements_repeated_sequence$|text_at$|check_validity$|referenced_text$|"
                        r"get$)")
 # names that match the pattern but are not claimed read-only by anybody (they create things on purpose) or need a live context
@@ -499,7 +574,7 @@ def locators(doc, tier, rng):
     out = [(("doc",), "doc"), (("body",), "element"), (("meta",), "meta"), (("part", "styles"), "part"), (("part", "content"), "part"),
            (("part", "manifest"), "part"), (("part", "settings"), "part")]
     root = priv(doc.body)
-    k = 2 if tier == "quick" else 4
+    k = 3 if tier == "quick" else 5
     ntab = 0
     for i, t in enumerate(root.iter(TB + "table")):
         if not table_small(t):
@@ -574,8 +649,27 @@ def resolve(doc, loc):
     raise LookupError(loc)
 
 
+# standard arguments for required parameters, by parameter name (a reader whose required parameter has no entry is listed as skipped)
+STD_ARGS = {
+    "pattern": "a", "regex": "a", "content": "a", "text": "a", "title": "a", "url": "a", "style": "a", "value": "a",
+    "name": "x", "note_id": "x", "draw_id": "x", "text_id": "x", "tag_value": "x", "creator": "x", "idx": "x", "change_id": "x",
+    "position": 0, "x": 0, "y": 0, "index": 0, "level": 1, "outline_level": 1, "start": 0, "end": 5, "offset": 0, "row": 0, "column": 0,
+    "coord": "A1", "coordinates": "A1:B2", "area": "A1:B2", "crange": "A1:B2",
+    "xpath_query": "descendant::*", "query": "descendant::*", "xpath_instance": None,
+    "family": "paragraph", "path": "content.xml", "tag": "text:p", "qname": "text:p", "attr_name": "text:style-name",
+    "context": "<ctx>", "table": 0,
+}
+NO_CALL = {"get_between", "get_formatted_text"}      # need two elements / have a hand-written entry with both context modes
+
+
+def _lab(v):
+    return "ctx" if v == "<ctx>" else repr(v)
+
+
 def introspected_calls(obj):
-    """(label, callable(doc, obj)) for every property and every zero-argument method whose name says it reads"""
+    """(label, callable(doc, obj)): every property; every method whose name says it reads, called with standard arguments for its
+    required parameters (STD_ARGS, by parameter name) and, one at a time, with every boolean keyword parameter flipped
+    (formatted=True, aggressive=True, full=True, clone=False ...): the non-default modes of a reader are readers too."""
     out, skipped = [], []
     cls = type(obj)
     for name in sorted(set(dir(cls))):
@@ -592,17 +686,36 @@ def introspected_calls(obj):
                 skipped.append(name)
             continue
         fn = getattr(obj, name, None)
-        if not callable(fn):
+        if not callable(fn) or name in NO_CALL:
             continue
         try:
             sig = inspect.signature(fn)
         except (TypeError, ValueError):
             continue
-        if any(p.default is inspect.Parameter.empty and p.kind in (p.POSITIONAL_ONLY, p.POSITIONAL_OR_KEYWORD, p.KEYWORD_ONLY)
-               for p in sig.parameters.values()):
+        req, flags, ok = [], [], True
+        for p in sig.parameters.values():
+            if p.kind in (p.VAR_POSITIONAL, p.VAR_KEYWORD):
+                continue
+            if p.default is inspect.Parameter.empty:
+                if p.name in STD_ARGS:
+                    req.append((p.name, STD_ARGS[p.name]))
+                else:
+                    ok = False
+            elif isinstance(p.default, bool):
+                flags.append((p.name, not p.default))
+        if not ok:
             skipped.append(name + "(needs arguments)")
             continue
-        out.append((name + "()", (lambda n: (lambda doc, o: consume(getattr(o, n)())))(name)))
+        variants = [dict(req)] + [dict(req, **{k: v}) for k, v in flags]
+        if name == "replace":       # count-only: `new` stays None
+            variants = [dict(v) for v in variants]
+        for kw in variants:
+            label = name + "(" + ", ".join("%s=%s" % (k, _lab(v)) for k, v in kw.items()) + ")"
+
+            def call(doc, o, n=name, kw=kw):
+                a = {k: (ctx_dict(doc, False) if v == "<ctx>" else v) for k, v in kw.items()}
+                return consume(getattr(o, n)(**a))
+            out.append((label, call))
     return out, skipped
 
 
@@ -732,7 +845,7 @@ def run_document(src, tier, seed, only=None):
 
     # CPU budget per document (big.ods: every snapshot is a C14N of a 1.5 MB tree): what is not reached is counted
     t_start = time.process_time()
-    total = 24 if tier == "quick" else 150
+    total = 24 if tier == "quick" else 100
     first_pass = total * 2 / 3
     for idx, ent in enumerate(ents):
         if only is None and time.process_time() - t_start > first_pass:
@@ -740,7 +853,7 @@ def run_document(src, tier, seed, only=None):
             break
         one(idx, ent, True)
         res["entries_done"] += 1
-    orders = 1 if tier == "quick" else 3
+    orders = 1 if tier == "quick" else 2
     for _ in range(orders if only is None else 0):
         order = [i for i in range(len(ents)) if i in answers]; rng.shuffle(order)
         for idx in order:
@@ -774,13 +887,14 @@ def modelled_cases(odfdo, src, tier):
     for node in root.iter(T + "p", T + "h"):
         if n >= (15 if tier == "quick" else 60):
             break
-        if not simple_paragraph(node) or len(py_inner_text(node)) > 300:
+        if not simple_paragraph(node) or len(py_inner_text(node)) > 300 or "\r" in py_inner_text(node):
             continue
         n += 1
         before = abs_items(node, al)
         e = Element.from_tag(node)
         t1 = e.inner_text
         _ = str(e); _ = e.text_recursive; _ = e.get_formatted_text(ctx_dict(doc, False)); _ = e.search("a"); _ = e.replace("a")
+        _ = e.replace("a", formatted=True); _ = e.replace(" +", None, True)        # count-only, in the non-default mode too
         t2 = e.inner_text
         after = abs_items(node, al)
         cases.append("Para %s %s %s %s" % (before, after, al.s(t1), al.s(t2)))
@@ -837,6 +951,10 @@ def sources(tier, seed):
     for i in range(ngen):
         out.append(dict(id="generated:text:%d" % i, kind="generated", spec=dict(gen="text", seed=seed * 1000 + i)))
         out.append(dict(id="generated:sheet:%d" % i, kind="generated", spec=dict(gen="sheet", seed=seed * 1000 + i)))
+    nraw = 3 if tier == "quick" else 10
+    for i in range(nraw):
+        out.append(dict(id="generated:rawtext:%d" % i, kind="generated", spec=dict(gen="rawtext", seed=seed * 1000 + i)))
+        out.append(dict(id="generated:rawsheet:%d" % i, kind="generated", spec=dict(gen="rawsheet", seed=seed * 1000 + i)))
     return out, skipped
 
 
@@ -982,9 +1100,11 @@ def run(tier, seed, replay=None):
         evaluations=calls + len(cases), distinct_nontrivial=len(distinct),
         rule="documents: 4 templates, every sample (minus %s: ~10^6 declared rows), %d generated text documents and %d generated sheets with trailing empty / repeated rows and cells; "
              "objects per document: the document, body, meta, styles/content/manifest/settings parts, the first tables (first and last row, first cell), the first element(s) of every tag; "
-             "per object: every property + every zero-argument method whose name matches the read pattern + the explicit argument list; every call twice, then again in %d shuffled order(s); snapshot compared after EVERY call. "
+             "plus %d raw-XML text documents and %d raw-XML sheets NOT in odfdo's canonical shape (double spaces / tabs / newlines in text nodes, space before a span, blank spans, tight and padded ragged tables with explicit trailing empty cells); "
+             "per object: every property + every method whose name matches the read pattern, with standard arguments for required parameters and with every boolean keyword flipped one at a time + the explicit argument list; every call twice, then again in %d shuffled order(s); snapshot compared after EVERY call. "
              "distinct_nontrivial = distinct (class, entry point) pairs that returned normally at least once"
-             % (sorted(BIG), sum(1 for s in srcs if s["id"].startswith("generated:text")), sum(1 for s in srcs if s["id"].startswith("generated:sheet")), 1 if tier == "quick" else 3),
+             % (sorted(BIG), sum(1 for s in srcs if s["id"].startswith("generated:text")), sum(1 for s in srcs if s["id"].startswith("generated:sheet")),
+                sum(1 for s in srcs if s["id"].startswith("generated:rawtext")), sum(1 for s in srcs if s["id"].startswith("generated:rawsheet")), 1 if tier == "quick" else 2),
         samples=samples, documents=len(jobs), big_sheets_skipped=skipped_big, calls=calls, coq_cases=len(cases),
         objects_by_kind=dict(sorted(hist.items())), timeouts=sum(r["timeouts"] for r in results), reader_exceptions=sum(r["exceptions"] for r in results),
         slowest_documents=sorted(((r.get("cpu_s", 0), r["id"]) for r in results), reverse=True)[:5], documents_lost=lost, documents_cut_by_cpu_budget=[dict(document=r["id"], entries_done=r.get("entries_done"), entries=r["entries"]) for r in results if r.get("budget_exhausted")],
